@@ -39,10 +39,10 @@ type build struct {
 }
 
 var (
-	bPlain   = build{Name: "plain", Tags: "verif"}
-	bDebug   = build{Name: "debug", Tags: "verif,debug"}
-	bSched   = build{Name: "sched", Sched: true, Tags: "verif,vsched"}
-	bRace    = build{Name: "race", Tags: "verif", Race: true}
+	bPlain = build{Name: "plain", Tags: "verif"}
+	bDebug = build{Name: "debug", Tags: "verif,debug"}
+	bSched = build{Name: "sched", Sched: true, Tags: "verif,vsched"}
+	bRace  = build{Name: "race", Tags: "verif", Race: true}
 )
 
 type propMeta struct {
